@@ -296,6 +296,112 @@ Proof.
     + reflexivity.
 Qed.
 
+(* std's square-and-multiply loop computes exactly that *)
+Lemma not_fits_scale : forall x p, ~ fits_i128 x -> 1 <= p -> ~ fits_i128 (x * p).
+Proof. intros x p Hx Hp. range_unfold. nia. Qed.
+
+Lemma sq_not_fits : forall b, ~ fits_i128 (b * b) -> 2 ^ 127 < b * b.
+Proof.
+  intros b H. range_unfold. change (2 ^ 127) with 170141183460469231731687303715884105728 in *.
+  assert (0 <= b * b) by nia.
+  destruct (Z_le_gt_dec (Z.abs b) 13043817825332782212).
+  - exfalso. apply H. nia.
+  - nia.
+Qed.
+
+Lemma big_not_fits : forall c q, c <> 0 -> 2 ^ 127 < q -> ~ fits_i128 (c * q).
+Proof.
+  intros c q Hc Hq. range_unfold. change (2 ^ 127) with 170141183460469231731687303715884105728 in *. nia.
+Qed.
+
+Lemma pow_ge_base : forall q h, 1 <= q -> 1 <= h -> q <= q ^ h.
+Proof.
+  intros q h Hq Hh. replace h with (Z.succ (h - 1)) by lia. rewrite Z.pow_succ_r by lia.
+  assert (1 <= q ^ (h - 1)).
+  { change 1 with (q ^ 0) at 1. apply Z.pow_le_mono_r; lia. }
+  nia.
+Qed.
+
+Lemma pow_loop_spec : forall fuel base acc exp,
+  1 <= exp < 2 ^ Z.of_nat fuel -> fits_i128 base -> fits_i128 acc -> (base = 0 \/ acc <> 0) ->
+  pow_loop fuel base acc exp = Some (checked (acc * base ^ exp)).
+Proof.
+  induction fuel as [|f IH]; intros base acc exp He Hb Ha Hinv.
+  - cbn in He. lia.
+  - rewrite Nat2Z.inj_succ, Z.pow_succ_r in He by lia.
+    cbn [pow_loop]. unfold checked_mul.
+    pose proof (Z.div_mod exp 2 ltac:(lia)) as Hdm.
+    set (h := exp / 2) in *.
+    destruct (Z.odd exp) eqn:Eodd.
+    + (* exp = 2h + 1 *)
+      assert (Hm : exp mod 2 = 1) by (rewrite Zmod_odd, Eodd; reflexivity).
+      assert (Hexp : exp = 2 * h + 1) by lia.
+      assert (Hpow : acc * base ^ exp = (acc * base) * (base * base) ^ h).
+      { rewrite Hexp, Z.pow_add_r, Z.pow_mul_r, Z.pow_1_r by lia.
+        change (base ^ 2) with (base * (base * 1)). rewrite Z.mul_1_r. ring. }
+      unfold checked at 1. destruct (in_i128 (acc * base)) eqn:E1.
+      * apply in_i128_fits in E1.
+        destruct (exp =? 1) eqn:E2.
+        -- apply Z.eqb_eq in E2. rewrite E2, Z.pow_1_r. unfold checked.
+           apply in_i128_fits in E1. rewrite E1. reflexivity.
+        -- apply Z.eqb_neq in E2. assert (Hh : 1 <= h) by lia.
+           unfold checked at 1. destruct (in_i128 (base * base)) eqn:E3.
+           ++ apply in_i128_fits in E3. rewrite Hpow. apply IH; try assumption; try lia.
+              all: try (destruct Hinv as [->|Hacc]; [left; reflexivity|];
+                        destruct (Z.eq_dec base 0) as [->|Hb0]; [left; reflexivity|right; nia]).
+           ++ apply in_i128_false in E3. apply sq_not_fits in E3.
+              assert (Hb0 : base <> 0) by (intros ->; cbn in E3; lia).
+              assert (Hacc : acc <> 0) by (destruct Hinv; congruence).
+              rewrite Hpow. unfold checked.
+              assert (Hq : 2 ^ 127 < (base * base) ^ h).
+              { apply Z.lt_le_trans with (base * base); [assumption|].
+                apply pow_ge_base; lia. }
+              assert (Hnf : in_i128 (acc * base * (base * base) ^ h) = false).
+              { apply in_i128_false. apply big_not_fits; [nia|assumption]. }
+              rewrite Hnf. reflexivity.
+      * apply in_i128_false in E1.
+        assert (Hb0 : base <> 0) by (intros ->; apply E1; rewrite Z.mul_0_r; range_unfold; lia).
+        rewrite Hpow. unfold checked.
+        assert (Hnf : in_i128 (acc * base * (base * base) ^ h) = false).
+        { apply in_i128_false. apply not_fits_scale; [assumption|].
+          rewrite <- (Z.pow_1_l h) by lia. apply Z.pow_le_mono_l. nia. }
+        rewrite Hnf. reflexivity.
+    + (* exp = 2h *)
+      assert (Hm : exp mod 2 = 0) by (rewrite Zmod_odd, Eodd; reflexivity).
+      assert (Hexp : exp = 2 * h) by lia.
+      assert (Hh : 1 <= h) by lia.
+      assert (Hpow : acc * base ^ exp = acc * (base * base) ^ h).
+      { rewrite Hexp, Z.pow_mul_r by lia.
+        change (base ^ 2) with (base * (base * 1)). rewrite Z.mul_1_r. reflexivity. }
+      unfold checked at 1. destruct (in_i128 (base * base)) eqn:E3.
+      * apply in_i128_fits in E3. rewrite Hpow. apply IH; try assumption; try lia.
+        all: try (destruct Hinv as [->|Hacc]; [left; reflexivity|right; assumption]).
+      * apply in_i128_false in E3. apply sq_not_fits in E3.
+        assert (Hacc : acc <> 0).
+        { destruct Hinv as [->|]; [cbn in E3; lia|assumption]. }
+        rewrite Hpow. unfold checked.
+        assert (Hq : 2 ^ 127 < (base * base) ^ h).
+        { apply Z.lt_le_trans with (base * base); [assumption|].
+          apply pow_ge_base; lia. }
+        assert (Hnf : in_i128 (acc * (base * base) ^ h) = false).
+        { apply in_i128_false. apply big_not_fits; assumption. }
+        rewrite Hnf. reflexivity.
+Qed.
+
+Lemma checked_pow_loop_spec : forall a e,
+  fits_i128 a -> 0 <= e <= u32_max ->
+  checked_pow_loop a e = Some (checked_pow a e).
+Proof.
+  intros a e Ha He. unfold checked_pow_loop. rewrite checked_pow_spec by lia.
+  destruct (e =? 0) eqn:E0.
+  - apply Z.eqb_eq in E0. subst. reflexivity.
+  - apply Z.eqb_neq in E0. rewrite pow_loop_spec; try assumption.
+    + rewrite Z.mul_1_l. reflexivity.
+    + unfold u32_max in He. change (2 ^ Z.of_nat 32) with 4294967296. lia.
+    + range_unfold. lia.
+    + right. lia.
+Qed.
+
 (* KnownClass of D4: exponent above u32::MAX *)
 Definition pow_exponent_above_u32 (b : Z) : Prop := u32_max < b.
 
@@ -311,7 +417,9 @@ Proof.
   replace (b <? 0) with false by (symmetry; apply Z.ltb_ge; lia).
   replace (0 <=? b) with true by (symmetry; apply Z.leb_le; lia).
   replace (b <=? u32_max) with true by (symmetry; apply Z.leb_le; lia).
-  cbn [andb]. rewrite checked_pow_spec by assumption. unfold checked.
+  cbn [andb]. apply in_i128_fits in Ha.
+  rewrite (checked_pow_loop_spec a b Ha) by (unfold u32_max in *; lia).
+  rewrite checked_pow_spec by assumption. unfold checked.
   destruct (in_i128 (a ^ b)); reflexivity.
 Qed.
 
@@ -385,11 +493,26 @@ Qed.
 
 (* ---------------------------------------------------------------- the VM never panics *)
 
+Lemma num_pow_no_panic : forall a b, num_pow a b <> Some (RErr ErrPanic).
+Proof.
+  intros a b. unfold num_pow, with_numbers, m_err, m_ok, m_unmodelled.
+  destruct (as_number a) as [[x|f]|] eqn:Ea; destruct (as_number b) as [[y|g]|] eqn:Eb;
+    cbn [num_is_float orb]; try discriminate.
+  destruct (y <? 0); cbn [orb]; [discriminate|].
+  destruct ((0 <=? y) && (y <=? u32_max)) eqn:Ey; [|discriminate].
+  apply andb_true_iff in Ey. destruct Ey as [Ey1 Ey2]. apply Z.leb_le in Ey1. apply Z.leb_le in Ey2.
+  assert (Hx : fits_i128 x).
+  { destruct a; try discriminate. cbn [as_number as_i128] in Ea.
+    destruct (in_i128 z) eqn:E; [|discriminate]. inversion Ea. subst. apply in_i128_fits. exact E. }
+  rewrite (checked_pow_loop_spec x y Hx) by lia.
+  destruct (checked_pow x y); discriminate.
+Qed.
+
 Lemma num_binop_no_panic : forall op a b, num_binop op a b <> Some (RErr ErrPanic).
 Proof.
   intros op a b.
-  destruct op; cbn [num_binop];
-    unfold num_add, num_sub, num_mul, math, num_div, num_floor_div, num_rem, num_rem_with, num_pow,
+  destruct op; cbn [num_binop]; try apply num_pow_no_panic;
+    unfold num_add, num_sub, num_mul, math, num_div, num_floor_div, num_rem, num_rem_with,
       with_numbers, m_err, m_ok, m_unmodelled;
     destruct (as_number a) as [[x|f]|]; destruct (as_number b) as [[y|g]|];
     cbn [num_is_float num_is_zero orb];
